@@ -436,7 +436,7 @@ def check(ctx):
                               'the encoded text of the children goes through %s: finished text contains character-string values in which a line break, a comma or a space is data, so '
                               'rewriting it by content changes those values (an embedded line feed gains indentation) and the emitted text no longer maps back to the value'
                               % what8, stmt='encoded text rewritten')
-    if n8 < 3:
+    if n8 < 1:
         raise AnalysisError('C20.R8 found only %d container encoders' % n8)
 
 
